@@ -133,9 +133,13 @@ def do_report():
             rows.append({'id': sid, 'exit': None, 'caught_by': 'not run', 'first': '', 'summary': meta['summary'][:200]})
             continue
         r = json.load(open(rp))
-        proof = [re.search(r'obligation=(.*?)(?: no-failing-input-found)?$', l).group(1) for l in r['lines'] if 'obligation=' in l]
-        orc = [re.search(r'key=(\S+)', l).group(1) for l in r['lines'] if 'bounded-oracle' in l]
-        by = 'proof obligation' if proof else ('bounded oracle' if orc else ('MISSED' if r['exit'] == 0 else 'exit %s' % r['exit']))
+        viol = [l for l in r['lines'] if l.startswith('VIOLATION')] if r['exit'] == 1 else []
+        proof = [re.search(r'obligation=(.*?)(?: no-failing-input-found)?$', l).group(1) for l in viol if 'obligation=' in l]
+        orc = [re.search(r'key=(\S+)', l).group(1) for l in viol if 'bounded-oracle' in l]
+        by = 'proof obligation' if proof else ('bounded oracle' if orc else ('MISSED' if r['exit'] == 0 else
+                                                                             {2: 'undecided (exit 2)', 3: 'checker limit (exit 3)'}.get(r['exit'], 'exit %s' % r['exit'])))
+        if not (proof or orc) and r['lines']:
+            proof = [r['lines'][0][:140]]
         rows.append({'id': sid, 'exit': r['exit'], 'caught_by': by, 'first': (proof or orc or [''])[0][:150],
                      'summary': meta['summary'][:200].replace('\n', ' ')})
     json.dump(rows, open(os.path.join(V, 'seeded', 'RESULTS.json'), 'w'), indent=1)
